@@ -409,7 +409,7 @@ def ring_case(ctx, ring, alg, kind, x, y, e, epad, do_inv=True, direct=False, ex
     if not r2:
         bad("qrFrom", "return", {"what": "valid code rejected", "code": octs(y)})
     res("qrFrom", ey, y)
-    buf = lib.mk(octs(x) + bytes([lib.fill]) * (max(nW, no) - no))
+    buf = lib.mk(octs(x) + bytes([lib.fillbyte]) * (max(nW, no) - no))
     r3 = ring.from_(buf, buf, st)
     if not r3:
         bad("qrFrom", "alias:b=a", {"what": "valid code rejected in place"})
@@ -424,7 +424,7 @@ def ring_case(ctx, ring, alg, kind, x, y, e, epad, do_inv=True, direct=False, ex
     out.append(got)
     if got != octs(x):
         bad("qrTo", "value", {"got": got, "expected": octs(x)})
-    buf = lib.mk(ax.to_bytes(nW, "little") + bytes([lib.fill]) * (max(nW, no) - nW))
+    buf = lib.mk(ax.to_bytes(nW, "little") + bytes([lib.fillbyte]) * (max(nW, no) - nW))
     ring.to(buf, buf, st)
     if lib.rd(buf, no) != octs(x):
         bad("qrTo", "alias:b=a", {"got": lib.rd(buf, no), "expected": octs(x)})
@@ -1191,7 +1191,7 @@ def unit_pp_small(ctx):
     st = {f: pp_stack(lib, f, 1, 1) for f in ("ppMul", "ppDiv", "ppMod", "ppGCD", "ppExGCD")}
     for f in ("ppMulMod", "ppInvMod", "ppDivMod", "ppSqrMod"):
         st[f] = pp_stack(lib, f, 1)
-    fill = lib.fill
+    fill = lib.fillbyte
     ms = ctypes.memset
     rdw, wr = lib.rdw, lib.wr
     skipped_exgcd = 0
